@@ -150,7 +150,7 @@ func (c Call) String() string {
 
 // ---- generator ----------------------------------------------------------------
 
-var typeWeights = [nTypes]int{tString: 4, tInt: 2, tPT1: 2, tT1: 2, tMap: 3, tAny: 4, tI1: 3, tT2: 1, tI2: 2}
+var typeWeights = [nTypes]int{tString: 4, tInt: 2, tPT1: 2, tT1: 2, tMap: 3, tAny: 4, tI1: 3, tT2: 1, tI2: 2, tVars: 2, tStrs: 2, tNames: 2}
 
 func pickType(r *mon.Rand) int {
 	tot := 0
@@ -169,9 +169,16 @@ func pickType(r *mon.Rand) int {
 
 // compatType: a type a value of static type cur may/must be assignable to
 // (identical type preferred), or a random type with probability pBad.
+// pTwin: probability of the near miss "distinct type with the same underlying
+// type" (map[string]any vs Vars, []string vs Names) where one is available.
+const pTwin = 0.10
+
 func compatType(r *mon.Rand, cur int, pBad float64) int {
 	if cur < 0 || r.Prob(pBad) {
 		return pickType(r)
+	}
+	if tw := twin(cur); tw >= 0 && pBad > 0 && r.Prob(pTwin) {
+		return tw
 	}
 	if r.Prob(0.4) {
 		return cur
@@ -209,6 +216,9 @@ func genOK(from, to int) bool {
 func revCompatType(r *mon.Rand, want int, pBad float64) int {
 	if want < 0 || r.Prob(pBad) {
 		return pickType(r)
+	}
+	if tw := twin(want); tw >= 0 && pBad > 0 && r.Prob(pTwin) {
+		return tw
 	}
 	if r.Prob(0.4) {
 		return want
@@ -493,7 +503,12 @@ func mutateType(r *mon.Rand, s *Spec) {
 			slots = append(slots, slot{&s.Calls[i].Cond}, slot{&s.Calls[i].Cond})
 		}
 	}
-	*mon.PickOne(r, slots).p = pickType(r)
+	p := mon.PickOne(r, slots).p
+	if tw := twin(*p); tw >= 0 && r.Prob(0.5) {
+		*p = tw
+		return
+	}
+	*p = pickType(r)
 }
 
 // ---- structure helpers ----------------------------------------------------------
